@@ -81,6 +81,15 @@ def arbitrary_oracle(ctx):
 
 @st.composite
 def arbitrary_cases(draw):
+    if draw(st.integers(0, 24)) == 0:
+        # alignment and padding sizes taken from the context, at the values where the arithmetic degenerates (modulus 0 and 1,
+        # length 0): a refusal must be a PaddingError, not an escaped ZeroDivisionError
+        k = draw(st.integers(0, 3))
+        ref = ["this", ["_params", "k"], draw(st.sampled_from(["attr", "item"]))]
+        inner = draw(st.sampled_from([["int", 1, False, "b", "alias"], ["int", 2, False, "l", "alias"], ["varint"], ["bytes", 0]]))
+        spec = draw(st.sampled_from([["aligned", ref, inner, b"\x00"], ["struct", [["a", ["int", 1, False, "b", "alias"]], ["b", ["aligned", ref, inner, b"\x00"]]]],
+                                     ["padded", ref, inner, b"\x00"], ["fixedsized", ref, inner]]))
+        return [spec, {"k": k}, draw(st.binary(max_size=8))]
     spec, params, value = draw(V.cases(frag=FRAG, depth=3))
     try:
         canonical = R.ref_build(spec, value, params)
@@ -106,9 +115,16 @@ def lookahead_cases(draw):
     members = []
     n = draw(st.integers(1, 4))
     for i in range(n):
-        o = draw(st.sampled_from(["peek", "pointer", "union", "select", "optional", "plain", "rawcopy", "grange-tail", "terminated", "lenpointer"]))
+        o = draw(st.sampled_from(["peek", "pointer", "union", "select", "optional", "plain", "rawcopy", "grange-tail", "terminated", "lenpointer", "mapping-composite"]))
         name = "m%d" % i
-        if o == "peek":
+        if o == "mapping-composite":
+            # Mapping "maps objects to other objects": whatever the subcon parses into that the table does not hold - a list or a
+            # Container cannot even be looked up - is a MappingError
+            b1 = ["int", 1, False, "b", "alias"]
+            comp = draw(st.sampled_from([["array", 2, b1], ["struct", [["a", b1]]], ["seq", [[None, b1], [None, b1]]], ["flagsenum", b1, [["r", 1], ["w", 2]], "kw"],
+                                         ["rawcopy", b1], ["grange", b1], b1]))
+            members.append([name, ["mapping", comp, [["x", 1], ["y", b"k"], ["z", "t"]]]])
+        elif o == "peek":
             members.append([name, ["peek", sub()]])
         elif o == "pointer":
             members.append([name, ["pointer", draw(st.integers(-6, 12)), sub()]])
@@ -204,6 +220,20 @@ SPECIAL = STREAMING_BITS + [
 ]
 
 
+# position-reporting members (Tell, RawCopy offsets, absolute Pointer/Seek) inside delimited regions that start behind a header:
+# their results are positions of the OUTER stream, so a fault while the region is entered cannot be papered over
+_B1 = ["int", 1, False, "b", "alias"]
+_I2 = ["int", 2, False, "b", "alias"]
+_REGION_BODY = ["struct", [["p", ["tell"]], ["x", _I2], ["q", ["tell"]], ["y", ["rawcopy", _B1]], ["z", ["pointer", 2, _B1]]]]
+POSITIONAL = [
+    (["struct", [["h", _I2], ["r", ["fixedsized", 4, _REGION_BODY]], ["t", _B1]]], bytes.fromhex("aabb1122334455")),
+    (["struct", [["h", _B1], ["r", ["prefixed", _B1, _REGION_BODY, False]], ["t", _B1]]], bytes.fromhex("aa041122334455")),
+    (["struct", [["h", _B1], ["r", ["fixedsized", 3, ["rawcopy", ["struct", [["a", _B1], ["b", _I2]]]]]], ["t", ["tell"]]]], bytes.fromhex("aa11223344")),
+    (["struct", [["h", _I2], ["r", ["prefixed", ["varint"], ["struct", [[None, ["seek", 3, 0]], ["v", _B1], ["w", ["tell"]]]], False]]]], bytes.fromhex("aabb03112233")),
+    (["struct", [["h", _B1], ["r", ["nullterm", ["struct", [["p", ["tell"]], ["x", _B1]]], b"\x00", False, True, True]], ["t", _B1]]], bytes.fromhex("aa110055")),
+]
+
+
 def same_outcome(a, b):
     if a.ok != b.ok:
         return False
@@ -257,6 +287,9 @@ def faults_parse_oracle(ctx):
 
 @st.composite
 def fault_cases(draw, build=False):
+    if not build and draw(st.integers(0, 11)) == 0:
+        spec, data = draw(st.sampled_from(POSITIONAL))
+        return [spec, {}, data + draw(st.binary(max_size=2))]
     if draw(st.integers(0, 5)) == 0:
         spec = draw(st.sampled_from(SPECIAL))
         params = {}
